@@ -25,7 +25,11 @@ type c15env struct {
 	notified int
 	reply    chan Subscriber
 	step     string
+	dying    *bus // a child that has begun shutting down but whose unsubscribe has not been processed yet
 }
+
+// c15dying: the first child is already shutting down (set by the *_d harness variants)
+var c15dying bool
 
 func c15new(nev, nchildren int, subscriber bool) *c15env {
 	e := &c15env{got: map[*bus][]Event{}, stops: map[*bus]int{}, parent: make(chan *bus, 4)}
@@ -44,6 +48,10 @@ func c15new(nev, nchildren int, subscriber bool) *c15env {
 		b.subscriptions[c] = true
 		e.children = append(e.children, c)
 	}
+	if c15dying && nchildren > 0 {
+		e.dying = e.children[0]
+		e.dying.lc.ShutdownInitiated(nil) // nobody reads its pubch any more; its unsubscribe is on the way
+	}
 	e.b = b
 	return e
 }
@@ -54,6 +62,9 @@ func (e *c15env) oracle(returned bool) {
 	switch e.step {
 	case "publish":
 		for _, c := range e.children {
+			if c == e.dying {
+				continue // a closing subscriber receives nothing more; it must not hold up the others
+			}
 			verif_Assert(len(e.got[c]) == 1 && e.got[c][0] == Event(99), "C15 a published event is handed to every subscriber exactly once")
 		}
 	case "emit":
@@ -104,6 +115,9 @@ func (e *c15env) oracle(returned bool) {
 		if e.step == "unsubscribe" && c == e.children[0] {
 			want = 0 // already gone
 		}
+		if c == e.dying {
+			want = 0 // already shutting down on its own
+		}
 		verif_Assert(e.stops[c] == want, "C15 closing a bus signals every subscriber exactly once")
 	}
 	verif_Assert(len(b.subscriptions) == 0, "C15 closing a bus collects every subscriber")
@@ -115,8 +129,12 @@ func (e *c15env) oracle(returned bool) {
 func c15symbolic(nev, nchildren int, subscriber bool) {
 	e := c15new(nev, nchildren, subscriber)
 	b := e.b
+	verif_MapOrderChoice(e.dying != nil) // the closing child may come before or after the live ones
 	for _, c := range e.children {
 		c := c
+		if c == e.dying {
+			continue
+		}
 		verif_EnvSinkFn(c.pubch, "child-pub", func(v interface{}) { e.got[c] = append(e.got[c], v) })
 		verif_EnvSinkFn(c.lc.ShutdownRequest(), "child-stop", func(v interface{}) { e.stops[c]++ })
 	}
@@ -181,6 +199,16 @@ func c15native(nev, nchildren int, subscriber bool) {
 	with := func(f func()) { <-lock; f(); lock <- struct{}{} }
 	for _, c := range e.children {
 		c := c
+		if c == e.dying {
+			go func() { // a closing child: reads nothing; its unsubscribe reaches the parent only during the parent's shutdown
+				select {
+				case <-b.lc.ShuttingDown():
+					b.unsubch <- c
+				case <-done:
+				}
+			}()
+			continue
+		}
 		go func() { // a live child: takes published events, and on shutdown unsubscribes from its parent
 			for {
 				select {
@@ -272,3 +300,8 @@ func Harness_C15_sub_1_1() { c15(1, 1, true) }
 func Harness_C15_sub_2_0() { c15(2, 0, true) }
 func Harness_C15_sub_2_2() { c15(2, 2, true) }
 func Harness_C15_sub_3_1() { c15(3, 1, true) }
+
+// one child is already closing when the step happens
+func Harness_C15_root_2d()  { c15dying = true; c15(0, 2, false) }
+func Harness_C15_sub_1_2d() { c15dying = true; c15(1, 2, true) }
+func Harness_C15_root_3d()  { c15dying = true; c15(0, 3, false) }
